@@ -1,4 +1,6 @@
 """C10 - Rabin key operations are consistent and tamper-evident (TMCG_SecretKey / TMCG_PublicKey).
+(see notes/C10.md for what is covered and for the findings)
+
 
   MC  : spec/RabinKey.tla part 1 (algebra of Blum integers: four roots in two negation pairs, -a no square, the
         answer of each proof stage unique up to same residue / same square, soundness fractions for bad moduli)
@@ -8,7 +10,9 @@
   A   : the same run enumerates every (operation, key, data/plaintext class, root, field, mutation, verifier key,
         data relation) with the verdict the specification expects; harness/drv_key.cc concretises each case on
         real keys generated in this run with seeded coins (the root sign() picks is dictated through seam_rng) and
-        reports raw verdicts; compared below.  Toy moduli: the square-root routines behind sign()/decrypt() against
+        reports raw verdicts; compared below.  Besides the text fields the catalogue alters the encodings themselves
+        (every byte of the PRab encoding / SAEP block and the bits above it, by a party that can extract roots) and
+        lets the owner prove the key again with other round counts (harness-side prover).  Toy moduli: the square-root routines behind sign()/decrypt() against
         the root sets computed by TLC; key sizes: generate + round trips per size against PRabFits/SAEPFits.
   B   : every call of the driver is logged with projections of the presented text (field structure, key-id text,
         identity of each number mod m and of its square); spec/RabinKeyTrace.tla builds the oracle tables from the
@@ -80,12 +84,25 @@ def cost(c):
     size = c["size"]
     if c["op"] == "check":
         return (0.6 if c["nizk"] else 0.02) * (size / 672.0) ** 2.2
-    return 0.01 * (size / 672.0) ** 2 * (40 if c.get("salt") == "topzero" else 1)
+    return 0.002 * (size / 672.0) ** 2
+
+def obj_of(c):
+    """cases on the same signed object go to the same process (the driver signs once per object)"""
+    if c["op"] == "verify":
+        return (c["key"], c["d"], c["dlen"], c["salt"], c["root"])
+    return ("single", c["id"])
 
 def run_cases(exe, kp, cases, seed, nproc, tag):
+    groups = {}
+    for c in cases:
+        groups.setdefault(obj_of(c), []).append(c)
+    def gcost(g):
+        c0 = g[0]
+        once = 0.01 * (c0["size"] / 672.0) ** 2.5 * (300 if c0.get("salt") == "topzero" else 1) if c0["op"] == "verify" else 0
+        return once + sum(cost(c) for c in g)
     bins = [[0.0, []] for _ in range(nproc)]
-    for c in sorted(cases, key=cost, reverse=True):
-        b = min(bins, key=lambda x: x[0]); b[0] += cost(c); b[1].append(c)
+    for g in sorted(groups.values(), key=gcost, reverse=True):
+        b = min(bins, key=lambda x: x[0]); b[0] += gcost(g); b[1] += g
     bins = [b for b in bins if b[1]]
     def one(k):
         cp, tp = d("run", "%s-cases-%d.ndjson" % (tag, k)), d("run", "%s-trace-%d.ndjson" % (tag, k))
@@ -125,7 +142,7 @@ def enc_region(c):
 def describe(c):
     if c["op"] == "verify":
         return "key %s (%d bits%s), data class %s, salt %s, root %d, %s.%s%s, verified under the %s key with data '%s'" % (
-            c["key"], c["size"], ", NIZK" if c["nizk"] else "", c["d"], c["salt"], c["root"], c["f"], c["mu"],
+            c["key"], c["size"], ", NIZK" if c["nizk"] else "", c["d"] if c["dlen"] < 0 else "%d bytes" % c["dlen"], c["salt"], c["root"], c["f"], c["mu"],
             "[%d]" % c["pos"] if c["pos"] >= 0 else "", c["kv"], c["rel"])
     if c["op"] == "decrypt":
         return "key %s (%d bits), plaintext class %s, randomness %s, %s.%s%s, decrypted under the %s key" % (
@@ -154,7 +171,7 @@ def compare(ck, cases, events):
     for i, c in byid.items():
         e = final[i]
         if not e.get("applied", True):
-            if c["f"] == "enc":      # no square of the wanted shape below this modulus: nothing was presented
+            if c["f"] == "enc" and c["mu"] == "top":      # encoding + 2^(8n) is not below this modulus: nothing was presented
                 skipped.append(i); continue
             raise vlib.Infra("mutation %s.%s of case %d could not be applied" % (c["f"], c["mu"], i))
         got = "acc" if e["res"] else "ref"
@@ -165,14 +182,14 @@ def compare(ck, cases, events):
                 "the code %s what the specification %s" % ("accepts" if e["res"] else "refuses", "refuses" if e["res"] else "accepts"), c, e)
         if c["op"] == "decrypt" and e["res"] and e["out"] != pts.get(i):
             bad("decrypt:wrong-plaintext", "decrypt returned %s, encrypted was %s" % (e["out"], pts.get(i)), c, e)
-        nontrivial.add(json.dumps([c["op"], c["key"], c.get("d", c.get("pt")), c.get("root", c.get("r")), c["f"], c["mu"], c.get("pos"),
+        nontrivial.add(json.dumps([c["op"], c["key"], c.get("d", c.get("pt")), c.get("dlen"), c.get("root", c.get("r")), c["f"], c["mu"], c.get("pos"),
                                    c.get("kv"), c.get("rel"), c.get("resign")]))
     for key, (n, what, c, e) in sorted(seen.items()):
         ck.violation(key, "%s  [%d case(s); first: %s]" % (what, n, describe(c)),
                      replay_obj={"case": c, "result": {k: v for k, v in e.items() if k not in ("P",)},
                                  "why": WHY.get(key.rsplit(":", 1)[0].split(":key-")[0])})
     ck.part("tlc-cases", not_applicable=len(skipped))
-    return nontrivial
+    return nontrivial, set(seen)
 
 WHY = {
     "verify:enc:top": "the presented value is a root of E + 2^(8n) (E the n-byte PRab encoding of the data, n = bits(m) div 8): a square that is "
@@ -193,7 +210,7 @@ def classify(ev, r):
     return "trace:" + k
 
 def strip(e):
-    return {k: v for k, v in e.items() if k not in ("applied", "ms", "saltok", "dlen", "seed", "text", "data")}
+    return {k: v for k, v in e.items() if k not in ("applied", "ms", "saltok", "dlen", "seed", "text", "data", "ownmatch", "ownwant")}
 
 def check_toy(ck, exe, lines):
     cp, rp = d("toy-cases.ndjson"), d("toy-results.ndjson")
@@ -318,20 +335,33 @@ def run(tier, seed):
         events = events + ev
     vlib.log("driver done at %.0fs (%d cases, %d events)" % (time.time() - ck.t0, len(cases), len(events)))
     # ---- A: verdicts of the symbolic specification
-    nontrivial = compare(ck, cases, events)
+    nontrivial, a_keys = compare(ck, cases, events)
     ck.add_cases("tlc-cases", len(cases), nontrivial)
     ck.part("tlc-cases", by_op={op: sum(1 for c in cases if c["op"] == op) for op in ("verify", "decrypt", "check")},
             expected_accept=sum(1 for c in cases if c["exp"] == "acc"), expected_refuse=sum(1 for c in cases if c["exp"] == "ref"),
             decided_by_trace_only=sum(1 for c in cases if c["exp"] == "?"),
             equivalent_representations_accepted=sorted(set("%s:%s.%s" % (c["op"], c["f"], c["mu"]) for c in cases if c["eqv"])))
-    # ---- B: every logged verdict re-computed by TLC
+    # ---- B: every logged verdict re-computed by TLC (a case already reported by A is not reported twice)
+    reported, report = set(), ck.violation
+    def once(key, what, replay_obj=None, replay_path=None):
+        if key in a_keys or key in reported:
+            vlib.log("trace validation rejects the same call: key=%s replay=%s" % (key, replay_path))
+            return False
+        reported.add(key)
+        return report(key, what, replay_obj=replay_obj, replay_path=replay_path)
     execs = [[strip(e) for e in x] for x in tracecheck.split_executions(merged)]
+    ck.violation = once
     n = tracecheck.validate(ck, PID, "tlc", "RabinKeyTrace", "RabinKeyTrace.cfg", execs, classify=classify, chunks=min(nproc, 8))
     if n == 0 and ck.violations == 0:
         raise vlib.Infra("no trace validated")
     texecs = [[strip(e) for e in x] for tp, _ in tops for x in tracecheck.split_executions(tp)]
     if texecs:
         tracecheck.validate(ck, PID, "top", "RabinKeyTrace", "RabinKeyTrace.cfg", texecs, classify=classify, chunks=len(texecs))
+    ck.violation = report
+    # the harness's own prover (cases "proof.*") is trusted only as far as it reproduces the proof of generate()
+    for e in events:
+        if e["e"] == "Check" and "ownmatch" in e and e["ownmatch"] != e["ownwant"] and ck.violations == 0:
+            raise vlib.Infra("the prover of drv_key and generate() disagree: %d of %d answers are equivalent" % (e["ownmatch"], e["ownwant"]))
     byid = {c["id"]: c for c in cases}
     shown = set()
     for e in events:
@@ -352,7 +382,7 @@ def run(tier, seed):
     return ck.finish()
 
 def replay(path, seed):
-    ck = vlib.Check(PID, "replay", seed, "model_checking")
+    ck = vlib.Check(PID, "quick", seed, "model_checking")
     exe = vlib.build_driver("drv_key", extra_src=["seam_rng.cc"])
     if path.endswith(".ndjson"):
         execs = [[strip(e) for e in x] for x in tracecheck.split_executions(path)]
@@ -362,9 +392,12 @@ def replay(path, seed):
     c = (obj.get("case") or {}).get("case")
     if not c or "op" not in c:
         print("nothing to replay in", path); return 2
+    CASES.clear(); CASES[c["id"]] = c
     kp = gen_keys(exe, sorted({c["key"], c["okey"]}), seed)
     merged, events = run_cases(exe, kp, [c], seed, 1, "replay")
-    compare(ck, [c], events)
+    nt, _ = compare(ck, [c], events)
+    ck.add_cases("replayed-case", 1, nt)
+    ck.sample({"case": {x: c[x] for x in c if x not in ("thm",)}})
     execs = [[strip(e) for e in x] for x in tracecheck.split_executions(merged)]
     tracecheck.validate(ck, PID, "replay", "RabinKeyTrace", "RabinKeyTrace.cfg", execs, classify=classify, chunks=1)
     return ck.finish()
